@@ -54,6 +54,8 @@ func init() {
 			add(c17Params{MaxLen: 4, Adders: []int{2, 2}, Prefill: 1, Drains: 1, RandOpts: 2}, "small", 1, 2, 8, 60, "success")
 			// table doubling under contention: two CAS failures of one Add need three adders at pb 2
 			add(c17Params{MaxLen: 4, Adders: []int{1, 1, 2}, Prefill: 1, Drains: 1}, "small", 2, 0, 8, 60, "success", "expanded")
+			// the same, then (quiescent) one Add per token index: the table the code's own expansion step built must be usable
+			add(c17Params{MaxLen: 4, Adders: []int{1, 1, 2}, Prefill: 1, Drains: 1, RandOpts: 4, PostTokens: true}, "small", 2, 0, 8, 60, "success", "expanded", "post-success")
 			// native ring size, wrap-around
 			add(c17Params{MaxLen: 1, Adders: []int{2, 2}, Prefill: 15, PreDrain: true, Prefill2: 14, Drains: 1}, "native", 2, 0, 8, 60, "success", "full")
 			return jobs
@@ -64,6 +66,7 @@ func init() {
 		add(c17Params{MaxLen: 4, Adders: []int{3, 3}, Prefill: 1, Drains: 2, RandOpts: 4}, "small", 2, 2, 16, 300, "success")
 		add(c17Params{MaxLen: 4, Adders: []int{1, 2, 2}, Prefill: 1, Drains: 1}, "small", 3, 0, 16, 300, "success", "expanded")
 		add(c17Params{MaxLen: 2, Adders: []int{2, 2}, Prefill: 1, Drains: 1, RandOpts: 2}, "small", 3, 2, 16, 300, "success", "expanded")
+		add(c17Params{MaxLen: 8, Adders: []int{1, 1, 2}, Prefill: 1, Drains: 1, RandOpts: 4, PostTokens: true}, "small", 2, 1, 16, 300, "success", "expanded", "post-success")
 		add(c17Params{MaxLen: 1, Adders: []int{2, 2}, Prefill: 15, PreDrain: true, Prefill2: 14, Drains: 2}, "native", 3, 0, 16, 300, "success", "full")
 		add(c17Params{MaxLen: 2, Adders: []int{2, 2, 2}, Drains: 1}, "native", 2, 0, 16, 300, "success")
 		return jobs
